@@ -23,14 +23,14 @@ tvars == <<vars, l, kind, seen>>
 TrRemovePick(T) == T
 
 Rec == TraceLog[l]
-Frozen == UNCHANGED <<pc, nreq, dead, hs, ei, certs, todo>>
+Frozen == UNCHANGED <<pc, nreq, dead, hs, ei, certs, todo, expired>>
 KeysOf(X) == {x.k : x \in X}
 RunKeys(o) == {c.key : c \in AllCsrs(o)}
 
 TraceInit == /\ l = 2 /\ TraceLog[1].ev = "reset" /\ kind = "reset"
              /\ ag = S(TraceLog[1].post.ag) /\ seen = KeysOf(S(TraceLog[1].post.ag))
              /\ pc = "done" /\ sc = [pa |-> "none"] /\ r = [exit |-> 0] /\ pre = [ag |-> {}, seen |-> {}]
-             /\ nreq = 0 /\ dead = FALSE /\ hs = <<>> /\ ei = 1 /\ certs = <<>> /\ todo = {}
+             /\ nreq = 0 /\ dead = FALSE /\ hs = <<>> /\ ei = 1 /\ certs = <<>> /\ todo = {} /\ expired = FALSE
 
 Reset == /\ l <= Len(TraceLog) /\ Rec.ev = "reset"
          /\ ag' = S(Rec.post.ag) /\ seen' = KeysOf(S(Rec.post.ag)) /\ kind' = "reset" /\ l' = l + 1
